@@ -24,7 +24,12 @@ from selftest.mutants import _findings          # noqa: E402
 
 ADV = os.path.join(HERE, 'selftest', 'adv')
 # edits whose author flagged them as not strictly behaviour-preserving (kept for reference only)
-EXCLUDED = {'A8_R27_15'}
+EXCLUDED = {
+    'A8_R27_15',      # ValueError instead of IndexError on an empty event (its author's own caveat)
+    'A2_R03_13',      # extracts a helper that does write self.linear (called on a fresh copy): debatable by its author
+    'A2_R03_8',       # `raffine *= M` on a scipy sparse matrix: in-place for scalars, rebinding otherwise -- not exact
+    'A3_R06_9',       # adds a new public module-level name (public API change)
+}
 
 
 def entries(rules=None):
